@@ -101,7 +101,7 @@ type c18State struct {
 	goneObs bool // a read of a page whose file left the replica has been observed failing in this history
 	gate    *c18Gate
 	hydrate bool
-	tt      bool // a target time is set (VTTSET without VTTRESET yet)
+	tt      bool     // a target time is set (VTTSET without VTTRESET yet)
 	preTT   ltx.TXID // position before VTTSET
 }
 
